@@ -17,6 +17,10 @@ const (
 	ValidatorsKey = "Validators/value/"
 
 	ValidatorUpdateBlockKey = "ValidatorUpdateBlock/value/"
+	// ForceSealBlockKey holds the height of the latest block whose EndBlock force-sealed every open
+	// round because the validator set changed. A rebuilt node needs it to tell such a block from the
+	// block in which the oracle state was first initialised: both write a ValidatorUpdateBlock.
+	ForceSealBlockKey = "ForceSealBlock/value/"
 
 	IndexRecentParamsKey = "IndexRecentParams/value/"
 
